@@ -100,6 +100,14 @@ def map_diag(d, lines_tag, text_lines, unit):
     """-> (obligation id, kind, detail)"""
     msg = d["message"]
     spans = d.get("spans", [])
+    # a span inside a macro expansion (assert!, vec!, ...) points into the macro's own file: use the place in the
+    # unit file where the macro was invoked
+    def own(sp):
+        seen = 0
+        while sp is not None and not os.path.basename(sp.get("file_name", "")).startswith(unit) and sp.get("expansion") and seen < 8:
+            sp = sp["expansion"].get("span"); seen += 1
+        return sp
+    spans = [x for x in (own(sp) for sp in spans) if x is not None]
     clause_span = None
     primary = None
     for s in spans:
